@@ -560,3 +560,95 @@ pub broadcast proof fn axiom_trim_start_str(s: Seq<char>, p: &str)
 pub broadcast proof fn axiom_trim_end_str(s: Seq<char>, p: &str)
     ensures #[trigger] spec_trim_end(s, p) == strip_suffixes(s, p@) {}
 } // verus!
+verus! {
+// ------------------------------------------------------------------ seam positions in the string after deletion
+// (cutting a boundary-delimited slice out of valid UTF-8 moves later boundaries left and keeps them boundaries;
+//  seam k then sits at m[k].start - (total length of the ranges before it))
+pub open spec fn len_between(m: Seq<Range<usize>>, j: int, k: int) -> int
+    decreases k - j
+{
+    if j >= k { 0 } else { (m[j].end - m[j].start) + len_between(m, j + 1, k) }
+}
+pub proof fn lemma_cut_shift(r: Seq<u8>, lo: int, hi: int)
+    requires valid_utf8(r), 0 <= lo <= hi <= r.len(), cb(r, lo), cb(r, hi),
+    ensures
+        valid_utf8(r.subrange(0, lo) + r.subrange(hi, r.len() as int)),
+        forall|p: int| hi <= p <= r.len() && cb(r, p) ==> #[trigger] cb(r.subrange(0, lo) + r.subrange(hi, r.len() as int), p - (hi - lo)),
+{
+    let a = r.subrange(0, lo);
+    let c = r.subrange(hi, r.len() as int);
+    valid_utf8_split(r, lo);
+    valid_utf8_split(r, hi);
+    valid_utf8_concat(a, c);
+    let out = a + c;
+    assert forall|p: int| hi <= p <= r.len() && cb(r, p) implies #[trigger] cb(out, p - (hi - lo)) by {
+        let q = p - (hi - lo);
+        if q == out.len() || q == 0 {
+            is_char_boundary_start_end_of_seq(out);
+        } else {
+            assert(out[q] == r[p]);
+            is_char_boundary_iff_not_is_continuation_byte(r, p);
+            is_char_boundary_iff_not_is_continuation_byte(out, q);
+        }
+    }
+}
+pub proof fn lemma_len_between_bound(m: Seq<Range<usize>>, b: Seq<u8>, j: int, k: int)
+    requires wf_ranges(m, b), 0 <= j <= k < m.len(),
+    ensures m[j].start + len_between(m, j, k) <= m[k].start, len_between(m, j, k) >= 0,
+    decreases k - j,
+{
+    if j < k {
+        lemma_len_between_bound(m, b, j + 1, k);
+        assert(m[j].end <= m[j + 1].start);
+    }
+}
+pub proof fn lemma_seam_pos(b: Seq<u8>, m: Seq<Range<usize>>, j: int, k: int)
+    requires valid_utf8(b), wf_ranges(m, b), 0 <= j <= k < m.len(),
+    ensures
+        0 <= m[k].start - len_between(m, j, k) <= del_from(b, m, j).len(),
+        cb(del_from(b, m, j), m[k].start - len_between(m, j, k)),
+    decreases k - j,
+{
+    lemma_len_between_bound(m, b, j, k);
+    if j == k {
+        lemma_del(b, m, k);
+        assert(cb(b, m[k].start as int));
+        assert(len_between(m, k, k) == 0);
+        assert(cb(del_from(b, m, k), m[k].start as int));
+    } else {
+        lemma_seam_pos(b, m, j + 1, k);
+        lemma_del(b, m, j + 1);
+        let d = del_from(b, m, j + 1);
+        let lo = m[j].start as int; let hi = m[j].end as int;
+        let p = m[k].start - len_between(m, j + 1, k);
+        lemma_len_between_bound(m, b, j + 1, k);
+        assert(m[j].end <= m[j + 1].start);
+        assert(hi <= p);
+        lemma_cut_shift(d, lo, hi);
+        let out = d.subrange(0, lo) + d.subrange(hi, d.len() as int);
+        assert(del_from(b, m, j) == out);
+        assert(cb(d, p) && hi <= p <= d.len());
+        assert(cb(out, p - (hi - lo)));
+        assert(len_between(m, j, k) == (hi - lo) + len_between(m, j + 1, k));
+    }
+}
+pub proof fn lemma_len_between_last(m: Seq<Range<usize>>, j: int, k: int)
+    requires 0 <= j <= k < m.len(),
+    ensures len_between(m, j, k + 1) == len_between(m, j, k) + (m[k].end - m[k].start),
+    decreases k - j,
+{
+    if j < k { lemma_len_between_last(m, j + 1, k); }
+    else { assert(len_between(m, k + 1, k + 1) == 0); }
+}
+pub proof fn lemma_removed_before_is_len_between(m: Seq<(Range<usize>, Option<usize>)>, k: int)
+    requires 0 <= k <= m.len(),
+    ensures removed_before(m, k) == len_between(marker_ranges(m), 0, k),
+    decreases k,
+{
+    if k > 0 {
+        lemma_removed_before_is_len_between(m, k - 1);
+        lemma_len_between_last(marker_ranges(m), 0, k - 1);
+        assert(marker_ranges(m)[k - 1] == m[k - 1].0);
+    }
+}
+} // verus!
